@@ -42,7 +42,7 @@ func (hostile) Runs(tier string) int64 {
 
 func (hostile) Meta() core.EngineMeta {
 	return core.EngineMeta{
-		Rule:        "Inputs: (a) random bytes with sync bytes planted at multiples of the packet size, at random places or nowhere, empty, one byte, shorter than the 193-byte detection window; (b) reference streams whose descriptors carry the 23 typed tags with arbitrary bodies of arbitrary length inside intact sections, and reference streams mutated at seeded positions and at targeted fields (section_length, adaptation_field_length, PES_packet_length and header_data_length, pointer_field, descriptor and loop lengths set to 0 / 0xFF / maximum), re-framed to 188+k; (c) structured streams truncated at a stride of offsets. Configurations: packet size in {auto, 188, 192, 204, 189, 300}, reader in {seekable, bufio, plain} with seeded chunk plans, API in {NextPacket, NextData, alternating}, with and without skipper / observing parser. Invariants per run: no panic; every call returning an error other than ErrNoMorePackets consumed input (non-bufio readers); ErrNoMorePackets within len(input)+16 calls and again on each of the next 8 calls; explicit size: the results for in[:k] equal those for in[:k - k mod size]. A run that exceeds the 20 s supervisor is a violation of class hang. distinct = (origin class, size option, reader kind, API, callbacks, result-shape class: counts of data/errors bucketed); non-trivial = the input is non-empty and at least one call returned an error or data.",
+		Rule:        "Inputs: (a) random bytes with sync bytes planted at multiples of the packet size, at random places or nowhere, empty, one byte, shorter than the 193-byte detection window; (b) reference streams whose descriptors carry the 23 typed tags with arbitrary bodies of arbitrary length inside intact sections, and reference streams mutated at seeded positions and at targeted fields (section_length, adaptation_field_length, PES_packet_length and header_data_length, pointer_field, descriptor and loop lengths set to 0 / 0xFF / maximum), re-framed to 188+k; (c) structured streams truncated at a stride of offsets. Configurations: packet size in {auto, 188, 192, 204, 189, 300}, reader in {seekable, bufio, plain} with seeded chunk plans, API in {NextPacket, NextData, alternating}, with and without skipper / observing parser. Invariants per run: no panic; every call returning an error other than ErrNoMorePackets consumed input (non-bufio readers); ErrNoMorePackets within len(input)+16 calls and again on each of the next 8 calls; explicit size: the results for in[:k] equal those for in[:k - k mod size]. A run that exceeds the 20 s supervisor is a violation of class hang. distinct = (origin class, size option, reader kind, API, callbacks, result-shape class: counts of data/errors bucketed); non-trivial = the input is non-empty and at least one call returned an error or data. Reader kinds: seekable, bufio.Reader, plain, and a reader that can Peek without being a *bufio.Reader (bufio.ReadWriter).",
 		Real:        []string{"astits.Demuxer and everything below it", "bufio.Reader"},
 		Stub:        []string{"SimReader", "refts reference multiplexer (structured inputs)", "mutation operators", "per-run supervisor (hang detection)"},
 		FaultKinds:  []string{"random-bytes", "mutated-stream", "targeted-length-field", "truncated-stream", "empty-or-tiny", "auto-detect", "size>188", "bufio", "plain", "bufio-rw", "skipper", "parser"},
